@@ -162,6 +162,8 @@ class Normalizer:
             return self.facts.cmp(self.poly(t.left), type(t.ops[0]), self.poly(t.comparators[0]))
         if isinstance(t, ast.Constant) and isinstance(t.value, bool):
             return t.value
+        if isinstance(t, (ast.Name, ast.Attribute)) and getattr(self.facts, 'truth', None):
+            return self.facts.truth.get(self.text(t))
         return None
 
     def text(self, n: ast.AST) -> str:
@@ -297,9 +299,11 @@ class Facts:
     """Case facts for a symbolic run: integer lower bounds on atoms.  Decides a comparison when the
     difference of its sides is a constant or (+/-)atom + constant with a bounded atom; otherwise unknown."""
 
-    def __init__(self, lower: dict[str, int] | None = None, none: Callable[[str], bool | None] | None = None) -> None:
+    def __init__(self, lower: dict[str, int] | None = None, none: Callable[[str], bool | None] | None = None,
+                 truth: dict[str, bool] | None = None) -> None:
         self.lower = dict(lower or {})
         self.none = none
+        self.truth = dict(truth or {})
 
     def _sign_range(self, d: Poly) -> tuple[Fraction | None, Fraction | None]:
         """(lo, hi) bounds of d, None = unbounded."""
